@@ -1,6 +1,7 @@
 package props
 
 import (
+	"encoding/base64"
 	"encoding/json"
 	"fmt"
 	"os"
@@ -135,3 +136,5 @@ func flushStats() {
 func jsonMarshal(v any) ([]byte, error) { return json.Marshal(v) }
 
 func tierThorough() bool { return os.Getenv("VERIF_TIER") == "thorough" }
+
+func base64Std(b []byte) string { return base64.StdEncoding.EncodeToString(b) }
